@@ -155,6 +155,10 @@ def check_text_modes(case, env, data, path, nl):
                 continue
             refl = ref.get(n)
             spans = refl["spans"] if refl else []
+            if refl and refl.get("quirk"):
+                # text, line number and offset are judged; the column is not
+                # (known finding C01:unicode-word-boundary-next-to-invalid-utf8)
+                env.count("lines_whose_column_is_not_judged_word_boundary_quirk")
             if mname == "vimgrep":
                 # one record per match: offset = match start, column = match start + 1
                 if col is None or off != lstart + col - 1:
